@@ -214,7 +214,6 @@ def fatalSites : List Use := [
   ⟨"data/balance.Coin.Plus", "Fatal"⟩,
   ⟨"data/balance.Coin.Plus", "Fatal"⟩,
   ⟨"data/balance.EthAccount.SubBalance", "panic"⟩,
-  ⟨"data/governance.Store.Get", "panic"⟩,
   ⟨"event.FreezeForBroadcast", "panic"⟩,
   ⟨"event.JobETHSignRedeem.DoMyJob", "panic"⟩,
   ⟨"event.JobETHSignRedeem.DoMyJob", "panic"⟩,
@@ -347,8 +346,8 @@ def pinnedStore : List Use := [
   ⟨"storage.State.CommitTxSession", "f8fb166d4f14"⟩,
   ⟨"storage.State.Delete", "4246b77b0d19"⟩,
   ⟨"storage.State.DiscardTxSession", "b0dd7d580d62"⟩,
-  ⟨"storage.State.Exists", "76065d6540a4"⟩,
-  ⟨"storage.State.Get", "0031d02acd5e"⟩,
+  ⟨"storage.State.Exists", "3afc44af29cb"⟩,
+  ⟨"storage.State.Get", "aabe050b413b"⟩,
   ⟨"storage.State.Iterate", "fc4a0187a7f4"⟩,
   ⟨"storage.State.IterateRange", "0662e131e08a"⟩,
   ⟨"storage.State.Set", "8cf5d915c17d"⟩,
